@@ -24,10 +24,15 @@ declare -A MAP=(
  [C05-spawner-poll-reads-stale-returncode]="C05" [C18-mpiexec-ranks-clamped-to-affinity]="C18 C16" [C13-parked-task-dropped-from-dependency-filter]="C13"
  [C01-resolver-rebuilds-tuple-dict-subclasses]="C01 C03" [C11-shared-percall-queue]="C11" [C12-join-queue-before-stopping-worker]="C12"
  [C14-cache-entry-moved-from-tmpdir]="C14"
+ [C09-cached-output-memoised-per-process]="C09" [C17-log-failed-call-needs-name]="C17" [C15-canonical-call-applies-defaults]="C15"
+ [C20-shutdown-releases-recorded-calls]="C20" [C16-parallel-backend-path-cached-list]="C16 C18" [C03-resolver-event-cleared-after-pass]="C03 C02"
+ [C07-semaphore-slots-released-twice]="C07" [C10-spawner-stores-abspath-of-cwd]="C10 C16" [C02-settled-when-any-input-cancelled]="C02 C06"
+ [C06-cancelled-call-remembered-as-cached]="C06"
  [C18-returned-exception-treated-as-raised]="C18" [C12-shutdown-skipped-when-not-yet-connected]="C12" [C19-base-init-after-default-cores]="C19" [C20-dedup-edges-per-node-pair]="C20"
 )
+# every seed runs against its own scratch worktree of /repo (tools/seed_wt.sh): /repo, /verif/evidence and /verif/out stay untouched
+JOBS=${JOBS:-5}
 for S in $(ls seeded | sort); do
-  [ -n "${MAP[$S]:-}" ] || { echo "seed=$S : no mapping"; continue; }
-  if ! git -C /repo apply --check /verif/seeded/$S/patch.diff 2>/dev/null; then echo "seed=$S : PATCH DOES NOT APPLY"; continue; fi
-  tools/try_seed.sh $S ${MAP[$S]} 2>&1 | sed -E 's/KNOWN-FINDING[^V]*//g' | cut -c1-260
-done
+  [ -n "${MAP[$S]:-}" ] || { echo "seed=$S : no mapping" >&2; continue; }
+  echo "$S ${MAP[$S]}"
+done | xargs -P $JOBS -L 1 tools/seed_wt.sh 2>&1 | sed -E 's/KNOWN-FINDING[^V]*//g' | cut -c1-260
